@@ -1,5 +1,6 @@
 '''C19 Quilt and Batch are faithful views over the Frames they hold.'''
 from sfa.report import Ctx
+from sfa.rules import forwardrules
 from sfa.rules import flowmisc
 from sfa.rules import quiltrules
 from sfa.rules import recache
@@ -11,7 +12,7 @@ LEVEL_TEXT = (
     '(_index, _columns, _axis_map, _axis_opposite) is dominated by the _assign_axis guard on every path; '
     '(b) every Batch method that forwards through _apply_attr names the Frame attribute it is named after, forwards '
     'every own parameter under the same name and passes no keyword the Frame method lacks (34 forwards); '
-    '(c) Batch._derive propagates config / max_workers / chunksize / use_threads; (d) per path of Quilt._extract / _extract_array (symbolic store): the axis-map mask is set from the key of the Quilt axis, each Bus Frame is cut with its slice of that mask on the Quilt axis and the caller\'s other key on the opposite axis, parts are joined along self._axis through Frame.from_concat / concat_resolved (never a bare np.concatenate: F2), retained Bus labels are added on the Quilt axis. Retained labels: every value-returning path of the Quilt methods that branch on retain_labels has consulted that option (no shortcut hands out a Frame without the Bus-label level). Optional labels: a label parameter defaulting to None is tested by identity, never by truthiness (relabel_level_add adds a level 0 / "" too). Key order: the key of the Quilt axis must not be reduced to a set of positions without telling ordered key kinds apart (two known findings: a list / array / descending-slice key loses its order inside each component). Not decided: '
+    '(c) Batch._derive propagates config / max_workers / chunksize / use_threads; (d) per path of Quilt._extract / _extract_array (symbolic store): the axis-map mask is set from the key of the Quilt axis, each Bus Frame is cut with its slice of that mask on the Quilt axis and the caller\'s other key on the opposite axis, parts are joined along self._axis through Frame.from_concat / concat_resolved (never a bare np.concatenate: F2), retained Bus labels are added on the Quilt axis. Retained labels: every value-returning path of the Quilt methods that branch on retain_labels has consulted that option (no shortcut hands out a Frame without the Bus-label level). Optional labels: a label parameter defaulting to None is tested by identity, never by truthiness (relabel_level_add adds a level 0 / "" too). Key order: the key of the Quilt axis must not be reduced to a set of positions without telling ordered key kinds apart (two known findings: a list / array / descending-slice key loses its order inside each component). Option forwarding: each Quilt / Batch routine passes its own same-named parameters on to the resolved callee that accepts them (window options such as label_shift reach the item generator). Not decided: '
     'the contents of the axis map itself; window arithmetic.')
 
 CLAIM = dict(
@@ -30,3 +31,4 @@ def run(ctx: Ctx) -> None:
     quiltrules.key_order(ctx)
     flowmisc.optional_hashable_tests(ctx)
     resolve.f2_concatenations(ctx)
+    forwardrules.forwarding(ctx, modules=('quilt', 'batch'), prefixes=('_axis', 'iter_', '_extract', 'to_', 'from_', '_apply', 'apply', '_ufunc', 'sort', 'head', 'tail', 'equals', 'rename', 'unique', 'isin', 'sample'), suffix='view', floor=100, what='Quilt / Batch routine')
